@@ -65,6 +65,14 @@ def handleUnwritable (tool : String) (fields : List String) : Verdict :=
     { modelOk := cls == "err", modelOut := "refused", oracle := o, nontrivial := true }
   | _ => Verdict.badLine "unwritable line needs three fields"
 
+/-- does `[..] op k` exclude two true operands?  (`<= 1`, `= 1`, `< 2`, and the degenerate `<= 0`, `= 0`, `< 1`, `< 0`) -/
+def forbidsTwo (op : CntOp) (k : Nat) : Bool :=
+  match op with
+  | .atMost => k ≤ 1
+  | .exactly => k ≤ 1
+  | .lessThan => k ≤ 2
+  | _ => false
+
 /-- `queens|n|exit class|tree (variable id = k of v_k) or BIG or ERR|solver rows or -` -/
 def handleC15 (fields : List String) : Verdict :=
   match fields with
@@ -141,7 +149,7 @@ def handleC15 (fields : List String) : Verdict :=
               let cellsL := List.range (n * n)
               match cellsL.findSome? (fun a => (cellsL.find? (fun b => a < b &&
                   (a / n == b / n || a % n == b % n || sameDiag (a / n) (a % n) (b / n) (b % n)) &&
-                  !(lists.any (fun (op, l, k) => (op == .atMost || op == .exactly) && k == 1 && l.contains a && l.contains b)))).map (fun b => (a, b))) with
+                  !(lists.any (fun (op, l, k) => forbidsTwo op k && l.contains a && l.contains b)))).map (fun b => (a, b))) with
               | some (a, b) => some s!"cells {a} and {b} attack each other but no emitted constraint forbids two queens there"
               | none => none
         -- oracle 3: what the real solver lists
